@@ -33,6 +33,7 @@ enum Clause {
 }
 
 #[derive(Deserialize, Clone, Debug, Default)]
+#[serde(deny_unknown_fields)]
 struct LoopCfg {
 	ordinal: usize,
 	#[serde(default)]
@@ -64,6 +65,7 @@ struct LoopCfg {
 }
 
 #[derive(Deserialize, Clone, Debug, Default)]
+#[serde(deny_unknown_fields)]
 struct ClosureCfg {
 	ordinal: usize,
 	#[serde(default)]
@@ -77,6 +79,7 @@ struct ClosureCfg {
 }
 
 #[derive(Deserialize, Clone, Debug, Default)]
+#[serde(deny_unknown_fields)]
 struct ProofCfg {
 	/// statement whose whitespace-normalised source text starts with this prefix
 	#[serde(default)]
@@ -94,6 +97,7 @@ struct ProofCfg {
 }
 
 #[derive(Deserialize, Clone, Debug, Default)]
+#[serde(deny_unknown_fields)]
 struct ReplaceCfg {
 	rule: String,
 	pattern: String,
@@ -105,6 +109,7 @@ struct ReplaceCfg {
 }
 
 #[derive(Deserialize, Clone, Debug, Default)]
+#[serde(deny_unknown_fields)]
 struct FnCfg {
 	/// L22: write every `E?` of this function as `match E { Ok(v) => v, Err(e) => return Err(From::from(e)) }`
 	#[serde(default)]
@@ -136,6 +141,7 @@ struct FnCfg {
 }
 
 #[derive(Deserialize, Clone, Debug)]
+#[serde(deny_unknown_fields)]
 struct ItemCfg {
 	file: String,
 	path: String,
@@ -171,6 +177,7 @@ struct ItemCfg {
 }
 
 #[derive(Deserialize, Clone, Debug)]
+#[serde(deny_unknown_fields)]
 struct UnitCfg {
 	#[serde(default)]
 	unit: String,
@@ -201,6 +208,7 @@ struct UnitCfg {
 }
 
 #[derive(Deserialize, Clone, Debug)]
+#[serde(deny_unknown_fields)]
 struct LemmaCfg {
 	name: String,
 	params: String,
@@ -214,6 +222,7 @@ struct LemmaCfg {
 }
 
 #[derive(Deserialize, Clone, Debug)]
+#[serde(deny_unknown_fields)]
 struct IncludeRef {
 	file: String,
 	/// true (default): functions are emitted as contract stubs (external_body + the same contract)
